@@ -53,9 +53,9 @@ def k_alternative_partition_brut_force(instance, k):
     m = len(alternatives)
     unique_votes = [vote for vote, _ in instance.flatten_strict()]
 
-    # optimum number of partitions can't exceed floor(m / 2)
-    if k > math.floor(m / 2):
-        k = math.floor(m / 2)
+    # optimum number of partitions can't exceed ceil(m / 2): any two alternatives are single-peaked
+    if k > math.ceil(m / 2):
+        k = math.ceil(m / 2)
 
     # Construct L sets
     L = get_L_sets(alternatives, unique_votes)
